@@ -22,7 +22,7 @@ ASSUMPTIONS = ["identity treats an empty context dictionary like no context; inh
                "result is stored under the ordinary key; observed, outside the statement)"]
 COMPONENTS = {"real": ["memento_run_batch context inheritance, RecursiveContext, reference hashing with _memento_context_args, modifiers", "fork lifetimes"],
               "stub": ["generated program", "uuid4, clock"]}
-REACH = ["nonmemoized_outcomes", "inner_prevent_edges", "runs", "runs_reexecuting_nothing", "runs_reexecuting_subset", "ctx_edges", "empty_ctx_edges", "prevent_runs",
+REACH = ["trees_with_parameterless_functions", "nonmemoized_outcomes", "inner_prevent_edges", "runs", "runs_reexecuting_nothing", "runs_reexecuting_subset", "ctx_edges", "empty_ctx_edges", "prevent_runs",
          "prevent_nested_calls_refused", "absent_context_probes", "restarts"]
 
 ROOT_CTXS = [None, {"k": 1}, {"k": 2}, {"r": "A"}, {"r": "B", "k": 1}, {}, {"k": True}, {"k": 1.0}, {"k": "1"}]   # 1, True, 1.0, "1": equal or alike, four identities
@@ -31,7 +31,7 @@ UNIVERSE = [None, {"k": 1}, {"k": 2}, {"k": 1, "j": "a"}, {"r": "A"}, {"r": "B",
 
 def gen_case(seed):
     rng = core.stream(seed, "gen")
-    prog = calltree.gen_tree(rng, feats={"w_ctx": 3, "w_prevent": 0.8, "p_fail": 0.2, "p_nomemo": 0.45, "w_batch": 1.0, "w_map": 0.4, "p_res": 0.0})
+    prog = calltree.gen_tree(rng, feats={"w_ctx": 3, "w_prevent": 0.8, "p_fail": 0.2, "p_nomemo": 0.45, "w_batch": 1.0, "w_map": 0.4, "p_res": 0.0, "p_zero": 0.2})
     ctxs = rng.sample(ROOT_CTXS, rng.randrange(1, 4))
     runs = []
     for _ in range(rng.randrange(2, 7)):
@@ -40,8 +40,13 @@ def gen_case(seed):
     pre = []
     for _ in range(rng.randrange(0, 3)):   # sub-calls memoized beforehand under the same or another context
         pre.append({"node": rng.randrange(len(prog["nodes"])), "x": rng.randrange(3), "ctx": rng.choice(UNIVERSE)})
-    return {"seed": seed, "prog": prog, "runs": runs, "pre": pre, "backend": rng.choice(["fs", "fs+cache", "memory"]),
+        if prog["nodes"][pre[-1]["node"]]["params"] == "":
+            pre[-1]["x"] = 0
+    case = {"seed": seed, "prog": prog, "runs": runs, "pre": pre, "backend": rng.choice(["fs", "fs+cache", "memory"]),
             "prevent": {"node": rng.randrange(len(prog["nodes"])), "how": rng.choice(["single", "batch"])} if rng.random() < 0.6 else None}
+    if case["prevent"] and prog["nodes"][case["prevent"]["node"]]["params"] == "":
+        case["prevent"] = None      # (a prevented run needs arguments no other run uses; a parameterless function has only one set)
+    return case
 
 
 def cases(tier, seed):
@@ -106,6 +111,8 @@ def execute(case):
 
     def bump(k, n=1):
         stats[k] = stats.get(k, 0) + n
+    if any(n["params"] == "" for n in prog["nodes"]):
+        bump("trees_with_parameterless_functions")
     for n in prog["nodes"]:
         for e in n["edges"]:
             if e["mode"] == "prevent":
@@ -167,7 +174,7 @@ def execute(case):
             feats = {"how": st["how"], "prevent": st["prevent"]}
             # (1) parameters seen by bodies
             for ps in rec["params"]:
-                if list(ps) not in (["x"], ["x", "y"]):
+                if list(ps) not in (["x"], ["x", "y"], []):
                     viol.append(core.violation("context-args-leaked-into-parameters", feats, {"params": ps, "step": st}))
                     break
             if viol:
